@@ -3,6 +3,7 @@
   left-to-right short-circuit `or` and attribute lookup (a missing attribute would be an
   AttributeError, not the documented TypeError).
 -/
+import Model.Generated.MergeAttrs
 namespace Sketchnu
 
 /-- public parameters of a sketch object, as the attributes the merge methods read -/
@@ -12,11 +13,6 @@ inductive Sk where
   | log8  (width depth maxCount numReserved : Nat)
   | hll   (p seed : Nat)
   | hh    (width depth maxKeyLen : Nat) (phiBits : Nat)
-  deriving Repr, DecidableEq
-
-/-- the attributes the merge methods read -/
-inductive Attr where
-  | width | depth | uintMaxval | maxCount | numReserved | p | seed | maxKeyLen
   deriving Repr, DecidableEq
 
 /-- attribute lookup (`none` = AttributeError) -/
@@ -55,13 +51,14 @@ def compareChain (self other : Sk) : List Attr → MergeVerdict
     | some a, some b => if a ≠ b then .typeError else compareChain self other rest
     | _, _ => .attrError
 
-/-- the attribute list each class's `merge` compares, in source order -/
+/-- the attribute list each class's `merge` compares, in source order — TRANSLATED from the current
+    source (`Model/Generated/MergeAttrs.lean`) -/
 def Sk.mergeAttrs : Sk → List Attr
-  | .lin _ _ => [.width, .depth, .uintMaxval]
-  | .log16 _ _ _ _ => [.width, .depth, .uintMaxval, .maxCount, .numReserved]
-  | .log8 _ _ _ _ => [.width, .depth, .uintMaxval, .maxCount, .numReserved]
-  | .hll _ _ => [.p, .seed]
-  | .hh _ _ _ _ => [.width, .depth, .maxKeyLen]
+  | .lin _ _ => Gen.mergeAttrsLinear
+  | .log16 _ _ _ _ => Gen.mergeAttrsLog16
+  | .log8 _ _ _ _ => Gen.mergeAttrsLog8
+  | .hll _ _ => Gen.mergeAttrsHll
+  | .hh _ _ _ _ => Gen.mergeAttrsHH
 
 def mergeVerdict (self other : Sk) : MergeVerdict := compareChain self other self.mergeAttrs
 
